@@ -129,6 +129,9 @@ let run_case (t : string list) : string =
                                a_count = n_of_int (Stdlib.List.length entries); a_entries = Stdlib.List.map W.mp_entry entries } in
                      root := W.RDir (W.put (bytes_of_hex n) (W.AFile f) (adir ()))
                  | _ -> failwith "A")
+            | ["AR"; n] ->
+                let nb = bytes_of_hex n in
+                (match !root with W.RDir d -> root := W.RDir (Stdlib.List.filter (fun (n', _) -> n' <> nb) d) | _ -> ())
             | ["W"; v] -> wal := wput !wal v
             | ["X"; v] -> xwal := wput !xwal v
             | ["C"; k] ->
@@ -136,7 +139,8 @@ let run_case (t : string list) : string =
                 let (w', _) = W.cleanup_up_to (mode = "c") no_faults w (n_of_string k) in
                 wal := w'.W.w_wal;
                 (match w'.W.w_cwal with Some d -> xwal := d | None -> ());
-                root := w'.W.w_root
+                root := w'.W.w_root;
+                obs := (if !use_x then "C:" ^ listing_w !wal ^ "/" ^ listing_w !xwal else "C:" ^ listing_w !wal) :: !obs
             | ["L"; id] ->
                 let (r', res) = W.archive_log no_faults.W.f_io !wal !root (n_of_string id) in
                 root := r';
